@@ -195,3 +195,58 @@ func zzIsObjectJSON(data json.RawMessage) bool {
 	_, isMap := vJSONOf(data).(map[string]any)
 	return isMap
 }
+
+// The handler's typed input is decoded from exactly the validated document, member names matched exactly: a member
+// whose name differs from a field's JSON name only in letter case is not that field (it passed validation as some
+// unconstrained extra property), so it must not reach the handler as the field's value — nor override the validated one.
+type zzTypedIn struct {
+	UserID string `json:"userID"`
+	Limit  string `json:"limit"`
+}
+
+func zzSetSchemaTyped(sfield *any, rfield **jsonschema.Resolved, cache *SchemaCache) (any, error) {
+	return zzSetSchema(sfield, rfield, cache)
+}
+func zzTypeForTyped() reflect.Type { return nil }
+
+func zzC16TypedInput() {
+	env := &zzSchemaEnv{in: &jsonschema.Resolved{}, out: &jsonschema.Resolved{}}
+	zzS = env
+	env.inValid = true
+	env.outValid = true
+	env.outRootType = "object"
+	var got zzTypedIn
+	calls := 0
+	h := func(ctx context.Context, req *CallToolRequest, in zzTypedIn) (*CallToolResult, map[string]any, error) {
+		calls++
+		got = in
+		return nil, map[string]any{"ok": true}, nil
+	}
+	tool := &Tool{Name: "t", InputSchema: &jsonschema.Schema{Type: "object"}, OutputSchema: &jsonschema.Schema{Type: "object"}}
+	_, th, err := toolForErr(tool, h, nil)
+	vAssert(err == nil && th != nil, "C16.wrapper-built")
+	user := vStringN("user", 2)
+	args := map[string]any{}
+	exact := vBool("exactMember")
+	variant := vBool("caseVariantMember")
+	if exact {
+		args["userID"] = user
+	}
+	if variant {
+		args["userid"] = "mallory" // validated only as an unconstrained extra property
+		args["LIMIT"] = "1000"
+	}
+	req := &CallToolRequest{Params: &CallToolParamsRaw{Name: "t", Arguments: vJSON(args)}}
+	_, herr := th(context.Background(), req)
+	vAssert(herr == nil && calls == 1, "C16.handler-runs-once-on-valid-input")
+	if exact {
+		vAssert(got.UserID == user, "C16.typed-input-carries-the-validated-member")
+	} else {
+		vAssert(got.UserID == "", "C16.case-variant-member-is-not-the-field")
+	}
+	vAssert(got.Limit == "", "C16.case-variant-member-is-not-the-field")
+	if variant {
+		vReach("variant")
+	}
+	vReach("end")
+}
